@@ -59,6 +59,9 @@ LARGE_JSON = [json.dumps(j, sort_keys=True) for j, _ in LARGE]
 
 def schema_corpus(seed, n_generated):
     out = list(HAND) + [j for j, _ in LARGE if j not in HAND]
+    for j in ({'type': 'array', 'items': 'null'}, {'type': 'array', 'items': 'long'}, {'type': 'map', 'values': 'null'}):
+        if j not in out:
+            out.append(j)
     for i in range(n_generated):
         rng = random.Random('%s/fz/%d' % (seed, i))
         out.append(gschema.SchemaGen(rng, gschema.Opts(max_depth=rng.choice([1, 2, 3]))).gen())
@@ -82,6 +85,27 @@ def decode_ops(seed, schemas, limit, heavy, exhaustive_len, n_random, deser=True
             for n in (1023, 4097, 16383, 16384, 16385, 32769, 65536, 70001):
                 if n * 2 <= limit:
                     valid.append(avrobin.encode(node, env, LARGE[LARGE_JSON.index(json.dumps(j, sort_keys=True))][1](n)).hex())
+        if limit <= (4 << 20):
+            # spec-legal data in MANY blocks: every block's declared count fits the limit on its own, the running total does not
+            # (the guard has to be cumulative); sizes: Value is 56 bytes, a map entry 80
+            js = json.dumps(j, sort_keys=True)
+            if js == json.dumps({'type': 'array', 'items': 'null'}, sort_keys=True):
+                c = limit // 56 - 1
+                valid.append((enc_long(c) * 12 + b'\x00').hex())
+            elif js == json.dumps({'type': 'array', 'items': 'long'}, sort_keys=True):
+                c = min(limit // 56 - 1, 1500)
+                valid.append(((enc_long(c) + b'\x02' * c) * max(12, 12 * (limit // 56) // c) + b'\x00').hex())
+            elif js == json.dumps({'type': 'map', 'values': 'null'}, sort_keys=True):
+                c = min(limit // 80 - 1, 1500)
+                blocks = b''
+                n = 0
+                for _ in range(max(12, 12 * (limit // 80) // c)):
+                    blocks += enc_long(c)
+                    for _ in range(c):
+                        k = ('%x' % n).encode()
+                        blocks += enc_long(len(k)) + k
+                        n += 1
+                valid.append((blocks + b'\x00').hex())
         batches.append([{'id': '%s/p' % sid, 'op': 'parse_schema', 'sid': sid, 'text': json.dumps(j)},
                         {'id': '%s/f' % sid, 'op': 'fuzz_decode', 'sid': sid, 'valid': valid, 'limit': limit, 'heavy': heavy,
                          'exhaustive_len': exhaustive_len if i < len(HAND) else min(exhaustive_len, 3), 'random': n_random, 'seed': rng.getrandbits(48), 'deser': deser}])
